@@ -291,7 +291,7 @@ def run(prop, tier, check=None):
         apalache_heap(check)
     # ---- 2. the real code under random schedules
     table, entry = batch_scripts(scenarios)
-    scriptsfile = os.path.join(WORK, "scripts_%s.json" % prop)
+    scriptsfile = os.path.join(WORK, "scripts_%s_%d.json" % (prop, os.getpid()))      # (per process: checks may run side by side)
     json.dump({"scripts": table, "defects": CODE_DEFECTS}, open(scriptsfile, "w"))
     nsched = 150 if tier == "quick" else 1500
     nws = [1, 2, 3, 4, 2, 3]
@@ -304,7 +304,7 @@ def run(prop, tier, check=None):
                              "lines": lines, "nw": nws[k % len(nws)], "driver": "random" if k else "default",
                              "seed": seed * 7907 + i * 101 + k, "quanta": QUANTA if k else [1000], "max_steps": 6000,
                              "meta": {"scenario": "session%d" % i, "entry": 0, "confluent": False, "terminates": False}})
-    tracefile = os.path.join(WORK, "trace_%s.ndjson" % prop)
+    tracefile = os.path.join(WORK, "trace_%s_%d.ndjson" % (prop, os.getpid()))
     t1 = time.time()
     summaries = run_sim(reqs, tracefile)
     check.cov["sim_wall_s"] = round(time.time() - t1, 1)
@@ -361,7 +361,12 @@ def run(prop, tier, check=None):
     if bad is not None:
         check.cov["model_drift"] = 1
         check.cov["model_drift_at_record"] = bad
-        print("MODEL-DRIFT: a recorded execution is not a behaviour of spec/Runtime.tla (first unexplained record %s of %s)" % (bad, tracefile))
+        print("MODEL-DRIFT: a recorded execution is not a behaviour of spec/Runtime.tla (first unexplained record %s of %s)" % (bad, l2file))
+    # scratch files are per process; they are kept only when there is something to look at
+    if bad is None and not check.violations:
+        for f in {tracefile, l2file, scriptsfile}:
+            if os.path.exists(f):
+                os.remove(f)
     check.assumptions += ["atomicity of Worker::step / Environment::handle_event (Lipton reduction, DESIGN 1)",
                           "scenario scripts are rendered faithfully to Quiver (lib/scn.py); checked by ScriptFollowed and by L2 validation"]
     return check.finish()
@@ -374,7 +379,7 @@ def replay(prop, path):
         print("unknown scenario in replay file")
         return 2
     table, entry = batch_scripts([s])
-    scriptsfile = os.path.join(WORK, "scripts_replay.json")
+    scriptsfile = os.path.join(WORK, "scripts_replay_%d.json" % os.getpid())
     json.dump({"scripts": table, "defects": CODE_DEFECTS}, open(scriptsfile, "w"))
     req = {"id": r["run"], "src": r["src"], "nw": r["nw"], "driver": "replay", "schedule": r["schedule"],
            "quanta": [1000], "meta": {"scenario": s["name"], "entry": 1, "confluent": False,
@@ -383,10 +388,13 @@ def replay(prop, path):
         req["lines"] = r["lines"]
         req["meta"]["lines"] = list(s["lines"])
         req["meta"]["entry"] = s["lines"][0]
-    tracefile = os.path.join(WORK, "trace_replay.ndjson")
+    tracefile = os.path.join(WORK, "trace_replay_%d.ndjson" % os.getpid())
     run_sim([req], tracefile)
     res, viols = monitor(tracefile, scriptsfile)
     mine = [v for v in viols if v["rule"] == r["rule"]]
+    for f in (tracefile, scriptsfile):
+        if os.path.exists(f):
+            os.remove(f)
     if mine:
         print("VIOLATION property=%s replay=%s" % (prop, path))
         return 1
